@@ -135,6 +135,16 @@ def policy_cases(thorough=False):
             l2 = b" " + b"w" * max(0, n - a - 3)           # n = len(l1) + 2 + len(l2) : CRLF of the first line counted
             total = len(l1) + 2 + len(l2)
             yield ("folded field of %d bytes, limit_request_field_size=%d" % (total, lim), spec, head + l1 + b"\r\n" + l2 + b"\r\n\r\n", total, lim, "fsize-folded", False)
+            # the size of a field is the size of a field whatever becomes of it afterwards: under every header_map policy, for
+            # names with an underscore (dropped / refused / passed on) and for a forwarder header
+            for mtag, mflags in (("drop", {}), ("refuse", dict(header_map="refuse")), ("dangerous", dict(header_map="dangerous"))):
+                for name in (b"X-Pad", b"X_Pad", b"X_Forwarded_For"):
+                    if n <= len(name) + 3:
+                        continue
+                    spec = lp.make_spec(limit_request_field_size=lim, **mflags)
+                    fld = name + b": " + b"v" * (n - len(name) - 2)
+                    yield ("field %s of %d bytes (header_map=%s), limit_request_field_size=%d" % (name.decode(), len(fld), mtag, lim), spec,
+                           head + fld + b"\r\n\r\n", len(fld), lim, "fsize-policy", False)
             if lim < 30:
                 continue                  # the Transfer-Encoding field of the head itself has 26 bytes
             spec = lp.make_spec(limit_request_field_size=lim)
